@@ -12,6 +12,7 @@ import (
 	"encoding/json"
 	"fmt"
 	"io"
+	"log/slog"
 	"net/http"
 	"os"
 	"path/filepath"
@@ -20,7 +21,13 @@ import (
 
 	"chainguard.dev/apko/pkg/apk/apk"
 	apkfs "chainguard.dev/apko/pkg/apk/fs"
+	"github.com/chainguard-dev/clog"
 )
+
+// the code under test warns once per failed verification; keep the run log readable
+func isCtx() context.Context {
+	return clog.WithLogger(context.Background(), clog.New(slog.NewTextHandler(io.Discard, nil)))
+}
 
 type isKeyCfg struct {
 	Name string `json:"name"`
@@ -538,7 +545,7 @@ func isKeyMap(keys []isKeyCfg) map[string][]byte {
 }
 
 func isParseOne(b []byte, st isParseStep, what string, extraTags []string) []Step {
-	idx, err := apk.VerifParseRepositoryIndex(context.Background(), st.URL, isKeyMap(st.Keys), st.Arch, b, st.Opt.Ignore, st.Opt.NoSig)
+	idx, err := apk.VerifParseRepositoryIndex(isCtx(), st.URL, isKeyMap(st.Keys), st.Arch, b, st.Opt.Ignore, st.Opt.NoSig)
 	goOut, kind := "", "-"
 	if err != nil {
 		kind = isErrKind(err)
@@ -713,7 +720,7 @@ func (t *isRT) RoundTrip(req *http.Request) (*http.Response, error) {
 
 func isRunMulti(c isCase) []Step {
 	apk.VerifResetGlobalCaches()
-	ctx := context.Background()
+	ctx := isCtx()
 	root := ""
 	http_ := strings.HasSuffix(c.Via, "-http")
 	rt := &isRT{files: map[string][]byte{}, etag: c.Etag}
